@@ -5,8 +5,10 @@ package main
 
 import (
 	"fmt"
+	"go/ast"
 	"go/token"
 	"go/types"
+	"os"
 	"sort"
 	"strings"
 )
@@ -264,6 +266,48 @@ func (c *Check) validatorAgreement(rule, msg, rec string) {
 		}
 	}
 	sort.Strings(missing)
+	if len(r) < 3 || len(missing) > 0 {
+		// the same comparison on what the validators establish rather than on which functions they call (checks written
+		// in place on one side, through named validators on the other)
+		leaf := func(fn, typ string) map[string]bool {
+			f := c.P.FuncNamed(fn)
+			if f == nil {
+				return nil
+			}
+			out := map[string]bool{}
+			for _, fa := range c.closeFacts(c.P.SummaryOf(f).SuccessFacts) {
+				if fa.T.Op == "ok" && len(fa.T.A) == 1 {
+					if h := c.P.FuncNamed(fa.T.A[0].Op); h != nil && h.isHandWritten() && h.Body != nil && len(c.P.SummaryOf(h).SuccessFacts) > 0 {
+						continue // expanded into what it establishes
+					}
+				}
+				k := strings.ReplaceAll(fa.String(), "(."+typ+".", "(.$.")
+				if !strings.Contains(k, "(.$.") {
+					continue
+				}
+				out[k] = true
+			}
+			return out
+		}
+		ml, rl := leaf("types."+msg+".ValidateBasic", msg), leaf("types."+rec+".Validate", rec)
+		var miss2 []string
+		for k := range rl {
+			if !ml[k] {
+				miss2 = append(miss2, k)
+			}
+		}
+		sort.Strings(miss2)
+		if os.Getenv("SVCLINT_DEBUG") != "" {
+			fmt.Fprintf(os.Stderr, "DEBUG validators %s~%s rec=%d msg=%d missing=%v\n", msg, rec, len(rl), len(ml), miss2)
+		}
+		if len(rl) >= 3 && len(miss2) == 0 {
+			c.ok(rule, msg+"~"+rec+"#validators", token.NoPos, fmt.Sprintf("%s.ValidateBasic establishes all %d conditions that %s.Validate establishes on the like-named fields", msg, len(rl), rec))
+			return
+		}
+		if len(rl) >= 3 && len(miss2) > 0 {
+			missing = append(missing, miss2...)
+		}
+	}
 	c.req(len(r) >= 3 && len(missing) == 0, rule, msg+"~"+rec+"#validators", token.NoPos,
 		fmt.Sprintf("%s.ValidateBasic applies all %d field validators of %s.Validate", msg, len(r), rec)+condStr(len(missing) > 0, "; missing: "+strings.Join(missing, ", ")))
 }
@@ -334,82 +378,121 @@ func (c *Check) genesisBindingSetter(rule string) {
 	}
 	c.req(len(missing) == 0, rule, "service.InitGenesis#families", ig.Body.Pos(), "genesis import rebuilds definitions, bindings, owner index, owner maps, parsed pricing, withdraw addresses and contexts"+condStr(len(missing) > 0, "; missing families: "+strings.Join(missing, ",")))
 	c.req(pricingOK, rule, "service.InitGenesis#pricing", ig.Body.Pos(), "the imported binding's pricing terms are parsed from its own pricing text")
-	// per imported binding: the function called for each element of Bindings writes the record and every index on every committed path
+	// per imported binding: what runs for each element of Bindings — one function called with the element, or the
+	// body of the import loop itself — writes the record and every index on every committed path
+	type effSet struct{ effs []*Eff }
+	judge := func(unit *Func, construct string, pos token.Pos, B *Term, perPath []effSet) {
+		var lacking []string
+		for _, ps := range perPath {
+			got := map[string]bool{}
+			for _, e := range ps.effs {
+				if e.Kind == "store" && e.Op == "Set" {
+					got[e.Family] = true
+				}
+			}
+			for _, fam := range []string{"0x02", "0x03", "0x04", "0x05", "0x06"} {
+				if !got[fam] {
+					lacking = append(lacking, fam)
+				}
+			}
+		}
+		// the rebuilt records are those of the imported binding: each is keyed by (and holds) the binding's own fields
+		if B != nil {
+			fo, fs, fp := field("ServiceBinding", "Owner", B).String(), field("ServiceBinding", "ServiceName", B).String(), field("ServiceBinding", "Provider", B).String()
+			want := map[string][]string{"0x02": {fs, fp}, "0x03": {fo, fs, fp}, "0x04": {fp}, "0x05": {fo, fp}, "0x06": {fs, fp}}
+			var wrong []string
+			for _, ps := range perPath {
+				for _, e := range ps.effs {
+					if e.Kind != "store" || e.Op != "Set" || want[e.Family] == nil {
+						continue
+					}
+					var got []string
+					for _, k := range keyArgs(e) {
+						got = append(got, stripConv(k).String())
+					}
+					if strings.Join(got, " ") != strings.Join(want[e.Family], " ") {
+						wrong = append(wrong, fmt.Sprintf("%s is keyed by %s", e.Family, fmtTerms(keyArgs(e))))
+					}
+					if e.Family == "0x04" && e.Val != nil && !(e.Val.ContainsOp(".ServiceBinding.Owner") && !e.Val.ContainsOp(".ServiceBinding.Provider")) {
+						wrong = append(wrong, "the owner recorded for the provider is "+shortTerm(e.Val))
+					}
+				}
+			}
+			wrong = uniq(sortStrings(wrong))
+			c.req(len(wrong) == 0, rule, construct+"#per-binding-keys", pos,
+				"the records rebuilt for an imported binding are keyed by its own service name, provider and owner (owner map: provider → owner)"+condStr(len(wrong) > 0, ": "+strings.Join(wrong, "; ")))
+		} else {
+			c.undecided(rule, construct+"#per-binding-keys", pos, "the per-binding import takes no binding record")
+		}
+		lacking = uniq(sortStrings(lacking))
+		c.req(len(perPath) > 0 && len(lacking) == 0, rule, construct+"#per-binding-writes", pos,
+			"every committed path of the per-binding import writes the record, the owner index, both owner maps and the parsed pricing"+condStr(len(lacking) > 0, "; some path lacks families "+strings.Join(lacking, ",")))
+	}
+	isElem := func(a *Term) bool {
+		return a.Op == "elem" && len(a.A) == 1 && strings.HasSuffix(a.A[0].Op, ".GenesisState.Bindings")
+	}
 	for _, pa := range c.P.PathsOf(ig) {
 		for _, ev := range pa.Events {
 			if ev.Kind != EvCall || ev.CI.fn == nil || ev.Loop == nil {
 				continue
 			}
-			isBinding := false
+			var elem *Term
 			for _, a := range ev.CI.args {
-				if a.Op == "elem" && len(a.A) == 1 && strings.HasSuffix(a.A[0].Op, ".GenesisState.Bindings") {
-					isBinding = true
+				if isElem(a) {
+					elem = a
 				}
 			}
-			if !isBinding {
+			if elem == nil {
 				continue
 			}
 			g := ev.CI.fn
-			var lacking []string
-			n := 0
+			// one function does the whole import of a binding
+			var perPath []effSet
+			covers := false
 			for _, pb := range c.P.PathsOf(g) {
 				if !pb.OK() {
 					continue
 				}
-				n++
-				got := map[string]bool{}
-				for _, e := range c.pathEffects(g, pb) {
-					if e.Kind == "store" && e.Op == "Set" {
-						got[e.Family] = true
-					}
-				}
-				for _, fam := range []string{"0x02", "0x03", "0x04", "0x05", "0x06"} {
-					if !got[fam] {
-						lacking = append(lacking, fam)
+				es := effSet{c.pathEffects(g, pb)}
+				perPath = append(perPath, es)
+				for _, e := range es.effs {
+					if e.Kind == "store" && e.Op == "Set" && e.Family != "0x02" {
+						covers = true
 					}
 				}
 			}
-			// the rebuilt records are those of the imported binding: each is keyed by (and holds) the binding's own fields
-			bi := -1
-			for i, pr := range g.Params {
-				if namedStruct(pr.Type()) == "ServiceBinding" {
-					bi = i
-				}
-			}
-			if bi >= 0 {
-				B := atom(fmt.Sprintf("P%d", bi)).withType(g.Params[bi].Type())
-				fo, fs, fp := field("ServiceBinding", "Owner", B).String(), field("ServiceBinding", "ServiceName", B).String(), field("ServiceBinding", "Provider", B).String()
-				want := map[string][]string{"0x02": {fs, fp}, "0x03": {fo, fs, fp}, "0x04": {fp}, "0x05": {fo, fp}, "0x06": {fs, fp}}
-				var wrong []string
-				for _, pb := range c.P.PathsOf(g) {
-					if !pb.OK() {
-						continue
-					}
-					for _, e := range c.pathEffects(g, pb) {
-						if e.Kind != "store" || e.Op != "Set" || want[e.Family] == nil {
-							continue
-						}
-						var got []string
-						for _, k := range keyArgs(e) {
-							got = append(got, stripConv(k).String())
-						}
-						if strings.Join(got, " ") != strings.Join(want[e.Family], " ") {
-							wrong = append(wrong, fmt.Sprintf("%s is keyed by %s", e.Family, fmtTerms(keyArgs(e))))
-						}
-						if e.Family == "0x04" && e.Val != nil && !(e.Val.ContainsOp(".ServiceBinding.Owner") && !e.Val.ContainsOp(".ServiceBinding.Provider")) {
-							wrong = append(wrong, "the owner recorded for the provider is "+shortTerm(e.Val))
-						}
+			if covers {
+				var B *Term
+				for i, pr := range g.Params {
+					if namedStruct(pr.Type()) == "ServiceBinding" {
+						B = atom(fmt.Sprintf("P%d", i)).withType(pr.Type())
 					}
 				}
-				wrong = uniq(sortStrings(wrong))
-				c.req(len(wrong) == 0, rule, unitConstruct(g, "per-binding-keys"), g.Body.Pos(),
-					"the records rebuilt for an imported binding are keyed by its own service name, provider and owner (owner map: provider → owner)"+condStr(len(wrong) > 0, ": "+strings.Join(wrong, "; ")))
-			} else {
-				c.undecided(rule, unitConstruct(g, "per-binding-keys"), g.Body.Pos(), "the per-binding import takes no binding record")
+				judge(g, g.Name, g.Body.Pos(), B, perPath)
+				return
 			}
-			lacking = uniq(sortStrings(lacking))
-			c.req(n > 0 && len(lacking) == 0, rule, unitConstruct(g, "per-binding-writes"), g.Body.Pos(),
-				"every committed path of the per-binding import writes the record, the owner index, both owner maps and the parsed pricing"+condStr(len(lacking) > 0, "; some path lacks families "+strings.Join(lacking, ",")))
+			// the import is written out in the loop: the loop body, once per committed path that enters it
+			loop := ev.Loop
+			perPath = nil
+			for _, pb := range c.P.PathsOf(ig) {
+				if !pb.OK() {
+					continue
+				}
+				var es effSet
+				entered := false
+				for _, e2 := range pb.Events {
+					if e2.Kind == EvLoop && e2.Node == ast.Node(loop) {
+						entered = true
+					}
+					if e2.Kind == EvCall && e2.Loop == loop {
+						es.effs = append(es.effs, c.P.effectsOfEvent(ig, e2)...)
+					}
+				}
+				if entered {
+					perPath = append(perPath, es)
+				}
+			}
+			judge(ig, ig.Name+"$import-loop", loop.Pos(), elem, perPath)
 			return
 		}
 	}
